@@ -1,6 +1,7 @@
 """C14 — locations index the parsed string and agree with line/column."""
 import itertools
 from tools import vlib
+from tools.harness import history
 
 PROP = "C14"
 GEN = ["gen_loc", "gen_entry"]
@@ -43,6 +44,8 @@ def all_strings(n):
 
 
 def correspond(ctx):
+    # entry points are independent of what the same grammar object was asked before (tools/harness/history.py)
+    history.run(ctx, 'C14', ["none", "packrat128"], 250 if not ctx.thorough else 2500, mode_switches=False, with_action=False, seed_salt=14)
     n = 6 if ctx.thorough else 5
     strs = list(all_strings(n))
     # --- model side: one vm_compute per length class to keep outputs small
@@ -273,6 +276,7 @@ def parse_level_oracle(ctx):
 
 
 def search(ctx, reasons):
+    history.run(ctx, 'C14', ["none", "packrat128"], 400 if not ctx.thorough else 4000, mode_switches=False, with_action=False, seed_salt=114)
     # widen: longer strings (random) on the implementation oracle
     rng = ctx.rng
     for _ in range(20000 if not ctx.thorough else 200000):
@@ -288,6 +292,8 @@ def search(ctx, reasons):
 
 def replay(ctx, obj):
     r = obj["replay"]
+    if r.get("kind") == "history":
+        return history.replay(r)
     if r.get("kind") == "parse-level":
         c2 = vlib.Ctx(PROP, "quick", 0)
         c2.known = {}
